@@ -7,7 +7,7 @@ cd harness
 RUSTFLAGS="-Cinstrument-coverage" CARGO_TARGET_DIR=target-cov cargo +nightly build --release --offline 2>&1 | tail -1
 B=target-cov/release/tzmon
 mkdir -p "$HERE/work/cov"; rm -f "$HERE/work/cov/"*.profraw
-for p in C01 C02 C03 C04 C05 C07 C08 C09 C10 C11 C12 C13 C14 C15 C16 C18 C20; do
+for p in C01 C02 C03 C04 C05 C06 C17 C07 C08 C09 C10 C11 C12 C13 C14 C15 C16 C18 C20; do
   LLVM_PROFILE_FILE="$HERE/work/cov/$p.profraw" $B $p --tier quick --seed 1 --threads 16 --scale ${SCALE:-0.2} --corpus "$HERE/corpus" --out /dev/null --opt events="$HERE/work/cov/ev-$p" 2>&1 | tail -1
 done
 rm -rf "$HERE/work/cov/"ev-*
@@ -24,5 +24,20 @@ for ln in open(sys.argv[1],errors='replace'):
         m=re.match(r"\s*(\d+)\|\s*0\|(.*)",ln)
         if m: print("%s:%s:%s"%(cur.split('/repo/')[1],m.group(1),m.group(2)[:150]))
 PY
-rm -f "$HERE/work/cov/"*.profraw "$HERE/work/cov/show.txt"
+$T/llvm-cov export -instr-profile "$HERE/work/cov/all.profdata" $B 2>/dev/null > "$HERE/work/cov/export.json"
+python3 - "$HERE/work/cov/export.json" > "$HERE/work/union-coverage-regions.txt" <<'PY'
+import sys,json
+d=json.load(open(sys.argv[1]))
+for f in d["data"][0]["files"]:
+    name=f["filename"]
+    if "/repo/src/" not in name: continue
+    try: src=open(name).read().splitlines()
+    except Exception: src=[]
+    for seg in f["segments"]:
+        line,col,count,has,entry,gap=seg[:6]
+        if has and entry and not gap and count==0:
+            text=src[line-1] if 0<line<=len(src) else ""
+            print("%s:%d:%d: %s"%(name.split("/repo/")[1],line,col,text.strip()[:140]))
+PY
+rm -f "$HERE/work/cov/"*.profraw "$HERE/work/cov/show.txt" "$HERE/work/cov/export.json"
 cat "$HERE/work/union-coverage-summary.txt"
